@@ -111,7 +111,7 @@ def run_tlc(module: str, cfg: str | Path, *, cwd: Path | None = None, workers: i
     cwd = Path(cwd) if cwd else SPEC
     meta = scratch() / "meta"
     gcopt = ["-XX:+UseParallelGC"] if gc == "parallel" else ["-XX:+UseSerialGC", "-XX:ActiveProcessorCount=2"]
-    cmd = ["java", *gcopt, f"-Xmx{heap}", "-Xss64m", f"-DTLA-Library={SPEC}"]
+    cmd = ["java", *gcopt, f"-Xmx{heap}", "-Xss256m", f"-DTLA-Library={SPEC}"]
     cmd += list(jvm or [])
     cmd += ["-cp", JAVA_CP, "tlc2.TLC", "-metadir", str(meta), "-noGenerateSpecTE",
             "-config", str(cfg), "-workers", str(workers)]
